@@ -56,7 +56,7 @@ Definition R_order (rc : bool) (sc : script) (s : st) (m : ostate) : Prop :=
   | SSyncEnd _ => o_cur m = [ESync] /\ rest_ok m []
   | SChk i =>
       o_cur m = [] /\ s_conn s = true /\ rest_ok m (exp_items k (S i) true (skipn (S i) its))
-  | SRunClose | SSubFailClose | SDisc => o_cur m = [] /\ (rest_ok m [] \/ o_stopped m = true)
+  | SRunClose | SSubFailClose | SInstClosed | SDisc => o_cur m = [] /\ (rest_ok m [] \/ o_stopped m = true)
   | SRet _ => if rc then True else o_cur m = [] /\ (rest_ok m [] \/ o_stopped m = true)
   | _ => True
   end.
